@@ -20,6 +20,8 @@ use crate::fixtures::world::{WOp, World, WorldCase, progressive_idx};
 pub enum Focus {
     Parents,
     Finality,
+    /// only the standstill triggers are judged
+    Standstill,
 }
 
 type B = (u64, u64);
@@ -311,7 +313,12 @@ impl<'a> Runner<'a> {
                 }
                 return !self.out.failed();
             }
-            WOp::Standstill => return true,
+            WOp::Standstill => {
+                if id == "C18" {
+                    self.standstill_check(i);
+                }
+                return !self.out.failed();
+            }
             WOp::CertFor(..) | WOp::LinkFor(..) => unreachable!(),
         }
 
@@ -335,8 +342,139 @@ impl<'a> Runner<'a> {
         match focus {
             Focus::Parents => self.check_parents(i, &desc, &ready_before, &ready_after, &after, &call, wm_pool, finalization_in_call),
             Focus::Finality => self.check_finality(i, &desc, &before, &after, op_slot, verdict_oob, wm_pool),
+            Focus::Standstill => {}
         }
         !self.out.failed()
+    }
+
+    /// C18: trigger standstill recovery now and judge the bundle.
+    fn standstill_check(&mut self, i: usize) {
+        use alpenglow::consensus::{Cert, ValidatedCert, ValidatedVote, Vote};
+        let call = self.drv.recover_from_standstill();
+        if let Some(p) = &call.panic {
+            self.out.violate(format!("C18/recover_from_standstill/panic/{}", panic_msg(p)), format!("step {i}: {p}"));
+            return;
+        }
+        let bundles: Vec<(u64, Vec<Cert>, Vec<Vote>)> = call
+            .events
+            .iter()
+            .filter_map(|e| if let PoolEvent::Standstill(s, c, v) = e { Some((s.inner(), c.clone(), v.clone())) } else { None })
+            .collect();
+        if !self.out.check(bundles.len() == 1 && call.events.len() == 1, "C18/not-exactly-one-bundle", || format!("step {i}: events {:?}", call.events.len())) {
+            return;
+        }
+        let (slot, certs, votes) = &bundles[0];
+        let f = self.drv.finalized_slot();
+        self.out.check(*slot == f + 1, "C18/bundle-slot", || format!("step {i}: bundle slot {slot}, finalized {f}"));
+        let have: BTreeSet<(u64, CKind, u64)> =
+            certs.iter().map(|c| (c.slot().inner(), cert_kind(c), c.block_hash().map(|h| tag_of(h, &self.world)).unwrap_or(0))).collect();
+        self.out.check(have.len() == certs.len(), "C18/bundle-duplicate-cert", || format!("step {i}: {have:?}"));
+        // (a) proof of the highest finalised slot
+        if f > 0 {
+            let ff = have.iter().any(|(s, k, _)| *s == f && *k == CKind::FastFinal);
+            let slow = have.iter().any(|(s, k, _)| *s == f && *k == CKind::Final) && have.iter().any(|(s, k, _)| *s == f && *k == CKind::Notar);
+            self.out.check(ff || slow, "C18/bundle-lacks-finality-proof", || format!("step {i}: finalized {f}, bundle certs {have:?}"));
+            if ff {
+                self.out.label("proof=fast-final");
+            } else if slow {
+                self.out.label("proof=final+notar");
+            }
+        } else {
+            self.out.label("finalized=genesis");
+        }
+        // (b) every certificate held for later slots
+        let mut later = 0;
+        for ((s, k), tags) in &self.model.certs {
+            if *s <= f {
+                continue;
+            }
+            for t in tags {
+                later += 1;
+                self.out.check(have.contains(&(*s, *k, *t)), &format!("C18/bundle-misses-held-cert/{k:?}"), || {
+                    format!("step {i}: pool holds {k:?} for slot {s} block {t} (> finalized {f}) but the bundle has {have:?}")
+                });
+            }
+        }
+        // nothing in the bundle that the pool was never told
+        for (s, k, t) in &have {
+            self.out.check(self.model.holds_block(*s, *k, *t) || (!k.has_hash() && self.model.holds(*s, *k)), "C18/bundle-invents-cert", || {
+                format!("step {i}: bundle has {k:?} slot {s} block {t}")
+            });
+        }
+        // (c) own votes for later slots
+        let own = self.drv.own;
+        let bundle_votes: BTreeSet<(crate::fixtures::votes::VKind, u64, u64, usize)> = votes
+            .iter()
+            .map(|v| {
+                let c = crate::fixtures::votes::classify_vote(v);
+                (c.kind, c.slot, c.hash.map(|h| tag_of(&h, &self.world)).unwrap_or(0), c.signer)
+            })
+            .collect();
+        let mut own_later = 0;
+        for v in &self.own_votes {
+            if v.slot <= f {
+                continue;
+            }
+            own_later += 1;
+            let key = (v.kind, v.slot, if v.kind.has_hash() { v.block } else { 0 }, own);
+            self.out.check(bundle_votes.contains(&key), &format!("C18/bundle-misses-own-vote/{}", v.kind.short()), || {
+                format!("step {i}: own accepted vote {v:?} (> finalized {f}) missing; bundle votes {bundle_votes:?}")
+            });
+        }
+        for (_, _, _, signer) in &bundle_votes {
+            self.out.check(*signer == own, "C18/bundle-foreign-vote", || format!("step {i}: vote of validator {signer} in bundle of {own}"));
+        }
+        // (d) everything validates at a receiver; (e) a fresh node catches up from the bundle alone
+        let n = self.case.stakes.len();
+        let mut fresh = PoolDriver::new(&self.case.stakes, (own + 1) % n);
+        for c in certs {
+            match ValidatedCert::try_new(c.clone(), self.drv.epoch()) {
+                Ok(vc) => {
+                    let (_, out) = fresh.add_cert(vc);
+                    if let Some(p) = out.panic {
+                        self.out.violate(format!("C18/receiver-panic/{}", panic_msg(&p)), format!("step {i}: {p}"));
+                        return;
+                    }
+                }
+                Err(e) => self.out.violate("C18/bundle-cert-invalid", format!("step {i}: {:?} slot {}: {e}", cert_kind(c), c.slot().inner())),
+            }
+            self.out.checks += 1;
+        }
+        for v in votes {
+            match ValidatedVote::try_new(v.clone(), self.drv.epoch()) {
+                Ok(vv) => {
+                    let (_, out) = fresh.add_validated_vote(vv);
+                    if let Some(p) = out.panic {
+                        self.out.violate(format!("C18/receiver-panic/{}", panic_msg(&p)), format!("step {i}: {p}"));
+                        return;
+                    }
+                }
+                Err(e) => self.out.violate("C18/bundle-vote-invalid", format!("step {i}: {e}")),
+            }
+            self.out.checks += 1;
+        }
+        let ff = fresh.finalized_slot();
+        self.out.check(ff == f, "C18/receiver-finalized-slot-differs", || format!("step {i}: sender finalized {f}, fresh receiver {ff}; bundle certs {have:?}"));
+        let next_window = (f / 4 + 1) * 4;
+        let mine: BTreeSet<B> = self.drv.pool.parents_ready(Slot::new(next_window)).iter().map(|b| block_of(b, &self.world)).collect();
+        let theirs: BTreeSet<B> = fresh.pool.parents_ready(Slot::new(next_window)).iter().map(|b| block_of(b, &self.world)).collect();
+        self.out.check(mine == theirs, "C18/receiver-ready-parents-differ", || {
+            format!("step {i}: window {next_window}: sender {mine:?}, fresh receiver {theirs:?}; bundle certs {have:?}")
+        });
+        // (f) the voting component forwards the whole bundle even when it has pruned ahead
+        let forwarded = forward_through_votor(&self.case.stakes, own, *slot, certs, votes, self.world.last_slot);
+        match forwarded {
+            Err(p) => self.out.violate(format!("C18/votor-panic/{}", panic_msg(&p)), format!("step {i}: {p}")),
+            Ok(n_forwarded) => {
+                self.out.check(n_forwarded == certs.len() + votes.len(), "C18/votor-does-not-forward-bundle", || {
+                    format!("step {i}: bundle of {} certs + {} votes, votor re-broadcast {n_forwarded} of them", certs.len(), votes.len())
+                });
+            }
+        }
+        if f > 0 && (later > 0 || own_later > 0) {
+            self.out.nontrivial = true;
+        }
+        self.out.label("standstill");
     }
 
     #[allow(clippy::too_many_arguments)]
@@ -552,4 +690,55 @@ impl<'a> Runner<'a> {
             self.out.check(nb == want, "C08/query/notarized-block", || format!("step {i} {desc}: get_notarized_block({s}) = {nb:?}, held {want:?}"));
         }
     }
+}
+
+/// Feeds a Standstill event to a real Votor that has already seen a (slow) final certificate far
+/// ahead of the bundle's slot; returns how many of the bundle's messages it re-broadcast.
+fn forward_through_votor(
+    stakes: &[u64],
+    own: usize,
+    slot: u64,
+    certs: &[alpenglow::consensus::Cert],
+    votes: &[alpenglow::consensus::Vote],
+    last_slot: u64,
+) -> Result<usize, String> {
+    use std::sync::Arc;
+
+    use alpenglow::ValidatorIndex;
+    use alpenglow::consensus::{ConsensusMessage, Votor};
+    use crate::fixtures::net::{RecAll2All, settle, with_runtime};
+    use crate::fixtures::votes::{CertSpec, make_cert};
+    use crate::fixtures::{epoch::validator_infos, keys};
+
+    let infos = validator_infos(stakes);
+    let n = stakes.len();
+    // a final certificate two windows beyond everything in the world
+    let far = (last_slot / 4 + 3) * 4 + 1;
+    let far_cert = make_cert(&CertSpec { kind: CKind::Final, slot: far, block: 0, primary: (0..n).collect(), fallback: vec![] }, &infos);
+    let event = PoolEvent::Standstill(Slot::new(slot), certs.to_vec(), votes.to_vec());
+    let wire = |m: &ConsensusMessage| wincode::serialize(m).unwrap_or_default();
+    let expected: Vec<Vec<u8>> = certs.iter().map(|c| wire(&ConsensusMessage::Cert(c.clone()))).chain(votes.iter().map(|v| wire(&ConsensusMessage::Vote(v.clone())))).collect();
+    crate::engine::catch(|| {
+        with_runtime(true, 7, async move {
+            let a2a = Arc::new(RecAll2All::default());
+            let (ptx, prx) = tokio::sync::mpsc::channel(64);
+            let (_btx, brx) = tokio::sync::mpsc::channel(64);
+            let mut votor = Votor::new(ValidatorIndex::new(own as u64), keys().vote[own].clone(), prx, brx, a2a.clone());
+            let task = tokio::spawn(async move { votor.voting_loop().await });
+            ptx.send(PoolEvent::CertCreated(far_cert)).await.expect("votor alive");
+            let a = a2a.clone();
+            settle(|| a.len(), 8).await;
+            a2a.take();
+            ptx.send(event).await.expect("votor alive");
+            let a = a2a.clone();
+            settle(|| a.len(), 8).await;
+            let sent: Vec<Vec<u8>> = a2a.take().iter().map(wire).collect();
+            let died = task.is_finished();
+            task.abort();
+            if died {
+                return 0;
+            }
+            expected.iter().filter(|e| sent.contains(e)).count()
+        })
+    })
 }
